@@ -333,6 +333,10 @@ pub fn cb_matches(cb: &Cb, e: &ExpCb) -> Result<(), (String, String)> {
             if id != gid {
                 return Err(("execute-id-altered".into(), format!("on_execute got id {} but the client executed {}", gid, id)));
             }
+            if cb.params_consumed.is_some() {
+                // the shim did not walk the list this time: nothing to compare but the id
+                return Ok(());
+            }
             if params.len() != gp.len() {
                 return Err(("param-count".into(), format!("on_execute saw {} parameters, statement declares {}", gp.len(), params.len())));
             }
